@@ -9,7 +9,10 @@ from lib import guardsum as G
 TECHNIQUE = ("MIR CFG must-precede (dominance) of the CRC verifier over the section parser at every loader entry, propagation of the verifier's Err edge, "
              "who-may-call for the parser, and a taint rule (file-derived values -> allocation sizes, indices, overflow-checked arithmetic) "
              "over every body reachable from the loader entries, with dominating-comparison discharge; a comparison may sit in a private guard helper "
-             "(guard summaries: which parameters are compared on every Ok return / by a bool predicate; success-edge dominance at the call), named constants are resolved")
+             "(guard summaries: which parameters are compared on every Ok return / by a bool predicate; success-edge dominance at the call), named constants are resolved; "
+             "file-derived arguments are followed into the integer parameters of private helpers (unless compared before the call); an undischarged site in a private helper is "
+             "keyed by the decoders that reach it through private helpers (multi-caller, once per call path); record codecs are read off bodies with their private helpers "
+             "expanded, loops and iterator adapters (`for`, `try_for_each`, `map(..).collect()`, index loops) labelled `elem(collection)`")
 EXPLANATION = (
     "Decides the structural clauses of C07: (R1) every function that calls the section parser first calls the CRC verifier on the same reader, the call "
     "dominates the parser call and the verifier's Err is propagated (`?`), and the parser is only called from such gated entries; the verifier reads the "
@@ -130,6 +133,31 @@ def sum_minus_addend(b, ops):
     return False
 
 
+def zero_tested(b, blk_i, feeding):
+    """a division / remainder by a file-derived value cannot trap when a comparison of that value with 0 dominates it: `if d == 0 { leave }`
+    (through another temporary copy of the same place), `match d { 0 => .., n => x % n }` (a switch on the value itself).  The general
+    dominating-comparison discharge does not count comparisons with 0 by place, because they say nothing about an upper bound; for the
+    zero check of a divisor they are exactly the bound that is needed."""
+    want = set()
+    for l in feeding:
+        want |= G.origins(b, l) | {(l, "")}
+    defs = G._stmt_defs(b)
+    for j, blk in enumerate(b.blocks):
+        term = blk["t"]
+        if term["k"] != "switch" or not isinstance(term.get("on"), list) or j == blk_i or not b.dominates(j, blk_i):
+            continue
+        on = term["on"][0]
+        if _int_width(b.locals[on]) and any(str(v) == "0" for v, _ in term.get("targets", [])):
+            if (G.origins(b, on) | {(on, "")}) & want:
+                return True
+        for s in defs.get(on, []):
+            if s.get("rk") == "bin" and s.get("op") in G.CMP_OPS and any(isinstance(o, dict) and str(o.get("c", "")).split("_")[0] in ("0", "const 0") for o in s["src"]):
+                for o in s["src"]:
+                    if isinstance(o, list) and (G.origins(b, o[0]) | {(o[0], "")}) & want:
+                        return True
+    return False
+
+
 def _listed_keys(rep):
     """keys of the listed findings / reviewed sites of this property (exact keys)"""
     import json, os
@@ -143,43 +171,105 @@ def _listed_keys(rep):
     return out
 
 
-def reattribute_moved_sites(rep, cg, bodies, per_fn):
-    """A site key names the function the site is in.  When a block that contains a LISTED undischarged site is extracted into a private
-    helper with a single call site, the same site would appear under the helper's name.  An undischarged group whose key is not listed
-    is therefore tried under the name of the helper's only caller (up to two levels), its lines added to the caller's own undischarged
-    group of the same kind: if THAT key is listed, the group is reported there.  Nothing is hidden by this: an additional site changes
-    the count in the key, and a key that is not listed either way is reported under the helper's own name as before."""
-    listed = _listed_keys(rep)
-    if not listed:
-        return per_fn
-    callers = defaultdict(set)
-    sites = defaultdict(int)
-    for b in bodies:
+def _rule_of(kind):
+    return "C07-R4" if kind == "alloc" else "C07-R3"
+
+
+def _site_key(fn, kind, what, n):
+    return "%s|%s:%s:%s:x%d" % (_rule_of(kind), fn, kind, what, n)
+
+
+def _has_listed_kind(listed, fn, kind, what):
+    """some multiplicity of this (function, kind, callee) site class is a listed finding"""
+    pre = "%s|%s:%s:%s:x" % (_rule_of(kind), fn, kind, what)
+    return any(k.startswith(pre) and k[len(pre):].isdigit() for k in listed)
+
+
+def _is_private_helper(cg, fn):
+    b = cg.bodies.get(fn)
+    return b is not None and not b.pub and not fn.startswith("<")
+
+
+def _call_counts(cg, fns):
+    """callee -> {caller: number of call sites} over the analysed bodies (same-crate callees only)"""
+    ncalls = defaultdict(lambda: defaultdict(int))
+    for fn in fns:
+        b = cg.bodies.get(fn)
+        if b is None:
+            continue
         for _, t in b.calls():
             c = t.get("f") or t["tf"]
             if c in cg.bodies and c != b.fn:
-                callers[c].add(b.fn)
-                sites[c] += 1
+                ncalls[c][b.fn] += 1
+    return ncalls
 
-    def key_of(fn, kind, what, n):
-        return "%s|%s:%s:%s:x%d" % ("C07-R4" if kind == "alloc" else "C07-R3", fn, kind, what, n)
-    out = dict(per_fn)
+
+def entry_callers(cg, ncalls, listed, fn, kind, what, levels=2):
+    """{caller: multiplicity}: the functions that reach a site of the private helper `fn` through private helpers only (at most `levels`
+    levels of them): climbing stops at a public function / trait method (a decoder entry point), at a function that has a listed finding of
+    this site class, and at a function nobody calls.  The multiplicity is the number of call paths (a helper called twice in one decoder is
+    two inlined copies of its block)."""
+    out = defaultdict(int)
+
+    def climb(f, depth, mult, path):
+        for g, n in sorted(ncalls.get(f, {}).items()):
+            if g in path:
+                continue
+            if _has_listed_kind(listed, g, kind, what) or not _is_private_helper(cg, g) or depth >= levels or not ncalls.get(g):
+                out[g] += mult * n
+            else:
+                climb(g, depth + 1, mult * n, path | {g})
+    climb(fn, 1, 1, {fn})
+    return dict(out)
+
+
+def reattribute_moved_sites(rep, cg, per_fn, analysed):
+    """A site key names the function the site is in.  When a block that contains a LISTED undischarged site is extracted into a private
+    helper, the same site would appear under the helper's name - once, even when the identical block was extracted from several decoders
+    into ONE shared helper.  An undischarged group in a private helper whose own key is not listed is therefore tried under the names of the
+    functions that reach it through private helpers only (`entry_callers`): every such caller inherits the helper's sites (once per call
+    path) on top of its own undischarged sites of the same kind and callee.  If at least one caller's key is listed that way, the group is
+    reported under its callers (a caller whose resulting key is not listed is a new violation under the CALLER's name); otherwise it stays
+    under the helper's own name as before.  Nothing is hidden by this: an additional site or an additional call changes the count in the key."""
+    listed = _listed_keys(rep)
+    if not listed:
+        return per_fn, {}
+    ncalls = _call_counts(cg, analysed)
+    cand = {}
     for (fn, kind, what, ok), lines in sorted(per_fn.items()):
-        if ok or key_of(fn, kind, what, len(lines)) in listed:
+        if ok or _site_key(fn, kind, what, len(lines)) in listed or not _is_private_helper(cg, fn):
             continue
-        g = fn
-        for _ in range(2):
-            b = cg.bodies.get(g)
-            if b is None or b.pub or len(callers.get(g, ())) != 1 or sites.get(g) != 1:
-                break
-            g = next(iter(callers[g]))
-            own = out.get((g, kind, what, False), []) if (g, kind, what, False) in per_fn or (g, kind, what, False) in out else []
-            if key_of(g, kind, what, len(own) + len(lines)) in listed:
-                out[(g, kind, what, False)] = sorted(own + lines)
-                del out[(fn, kind, what, ok)]
-                rep.note("site-moved-into-helper", {"site": "%s %s" % (kind, what), "helper": fn, "reported_under": g})
-                break
-    return out
+        ec = entry_callers(cg, ncalls, listed, fn, kind, what)
+        if ec:
+            cand[(fn, kind, what)] = ec
+
+    def merged(g, kind, what, groups):
+        own = list(per_fn.get((g, kind, what, False), [])) if (g, kind, what) not in groups else []
+        extra = []
+        for (h, k2, w2) in sorted(groups):
+            if k2 == kind and w2 == what and g in cand[(h, k2, w2)]:
+                extra += per_fn[(h, k2, w2, False)] * cand[(h, k2, w2)][g]
+        return own, extra
+    targets = {(g, k, w) for (h, k, w), ec in cand.items() for g in ec}
+    hit = set()
+    for (g, k, w) in targets:
+        own, extra = merged(g, k, w, set(cand))
+        if _site_key(g, k, w, len(own) + len(extra)) in listed:
+            hit.add((g, k, w))
+    moving = {grp for grp, ec in cand.items() if any((g, grp[1], grp[2]) in hit for g in ec)}
+    out = dict(per_fn)
+    via = {}
+    for (h, k, w) in moving:
+        del out[(h, k, w, False)]
+    for (g, k, w) in sorted(targets):
+        own, extra = merged(g, k, w, moving)
+        if not extra:
+            continue
+        out[(g, k, w, False)] = sorted(own + extra)
+        via[(g, k, w)] = sorted({h for (h, k2, w2) in moving if k2 == k and w2 == w and g in cand[(h, k2, w2)]})
+    for (h, k, w) in sorted(moving):
+        rep.note("site-moved-into-helper", {"site": "%s %s" % (k, w), "helper": h, "reported_under": sorted(cand[(h, k, w)])})
+    return out, via
 
 
 def run(F, rep, tier):
@@ -294,41 +384,9 @@ def run(F, rep, tier):
     seen_fn = set()
     n_sites = 0
     per_fn = defaultdict(list)
-    # a bound check extracted into a private helper (`check(off, len, total)?`) takes the file-derived values as arguments: the taint
-    # follows them into the parameters of such guard helpers (and only of those), so the arithmetic of the extracted check stays a site
-    seeds = defaultdict(set)
-    work = list(local)
-    for _ in range(3):
-        nxt = set()
-        for b in work:
-            if SKIP_FN.search(b.fn):
-                continue
-            taint = tainted_locals(b, seeds.get(b.fn, ()))
-            if not taint:
-                continue
-            for i, t in b.calls():
-                cal = t.get("f") or t["tf"]
-                if cal == b.fn or cal not in cg.bodies or not any(isinstance(a, list) and a[0] in taint for a in t["args"]):
-                    continue
-                if not sums.summary(cal):
-                    continue
-                for k, a in enumerate(t["args"]):
-                    if isinstance(a, list) and a[0] in taint and (k + 1) not in seeds[cal] and re.search(r"^(u|i)(8|16|32|64|128|size)$", cg.bodies[cal].locals[k + 1]):
-                        seeds[cal].add(k + 1)
-                        nxt.add(cal)
-        work = [cg.bodies[f] for f in sorted(nxt)]
-        if not work:
-            break
-    local = local + [cg.bodies[f] for f in sorted(seeds) if cg.bodies[f] not in local]
-    for b in local:
-        if b.fn in seen_fn:
-            continue
-        seen_fn.add(b.fn)
-        if SKIP_FN.search(b.fn):
-            continue
-        taint = tainted_locals(b, seeds.get(b.fn, ()))
-        if not taint:
-            continue
+
+    def discharger(b, taint):
+        """discharged(block, locals): a comparison of (a value feeding) one of the locals dominates the block"""
         tests = sums.tests(b)
         sl = Slice(b, passthrough=PASS)
 
@@ -347,20 +405,22 @@ def run(F, rep, tier):
                 if any(p_[0] in taint for p_ in ts.places & places):
                     return True      # the same field of the same file structure was compared (through another temporary, or inside a guard helper)
             return False
+        return discharged, sl
+
+    def sites_of(b, taint):
+        """[(kind, what, line, discharged)] of the allocation / index / checked-arithmetic sites of `b` that use a file-derived value"""
+        out = []
+        discharged, sl = discharger(b, taint)
         for i, t in b.calls():
             cal = t.get("f") or t["tf"]
             if ALLOC.search(cal):
                 size_args = [a for a in t["args"] if isinstance(a, list) and a[0] in taint and ("usize" in b.locals[a[0]] or "u64" in b.locals[a[0]] or "u32" in b.locals[a[0]])]
                 if size_args:
-                    n_sites += 1
-                    ok = discharged(i, [a[0] for a in size_args])
-                    per_fn[(b.fn, "alloc", cal.split("::")[-1], ok)].append(t["l"])
+                    out.append(("alloc", cal.split("::")[-1], t["l"], discharged(i, [a[0] for a in size_args])))
             elif INDEX.search(cal) and len(t["args"]) == 2:
                 a = t["args"][1]
                 if isinstance(a, list) and a[0] in taint and re.search(r"usize|Range", b.locals[a[0]]):
-                    n_sites += 1
-                    ok = discharged(i, [a[0]])
-                    per_fn[(b.fn, "index", re.sub(r"^.*<(alloc::vec::Vec|\[T\]|std::collections::\w+::\w+::HashMap).*$", r"\1", cal)[:40], ok)].append(t["l"])
+                    out.append(("index", re.sub(r"^.*<(alloc::vec::Vec|\[T\]|std::collections::\w+::\w+::HashMap).*$", r"\1", cal)[:40], t["l"], discharged(i, [a[0]])))
         for i, blk in enumerate(b.blocks):
             t = blk["t"]
             if t["k"] == "assert" and not blk["cl"]:
@@ -369,22 +429,93 @@ def run(F, rep, tier):
                 for l in locs:
                     feeding |= sl.locals_feeding([l, ""]) | {l}
                 if feeding & taint:
-                    n_sites += 1
-                    ok = discharged(i, locs) or (t["msg"] == "Overflow(Sub)" and sum_minus_addend(b, t["ops"]))
-                    per_fn[(b.fn, "assert", t["msg"], ok)].append(t["l"])
+                    ok = discharged(i, locs) or (t["msg"] == "Overflow(Sub)" and sum_minus_addend(b, t["ops"])) \
+                        or (t["msg"] in ("DivisionByZero", "RemainderByZero") and zero_tested(b, i, feeding & taint))
+                    out.append(("assert", t["msg"], t["l"], ok))
+        return out
+    # a bound check extracted into a private helper (`check(off, len, total)?`) takes the file-derived values as arguments: the taint
+    # follows them into the parameters of such guard helpers, so the arithmetic of the extracted check stays a site.  The same holds for
+    # a part of a decoder that was extracted into a private helper and is handed a count / length / offset the decoder has read
+    # (`read_list(cur, count)`): the parameter is file-derived inside the helper, unless the decoder compared the value before the call.
+    seeds = defaultdict(set)          # fn -> parameter locals that receive a file-derived argument
+    guard_seeds = defaultdict(set)    # the part of `seeds` that guard helpers receive (the only part followed before)
+    work = list(local)
+    for _ in range(3):
+        nxt = set()
+        for b in work:
+            if SKIP_FN.search(b.fn):
+                continue
+            taint = tainted_locals(b, seeds.get(b.fn, ()))
+            if not taint:
+                continue
+            dis = None
+            for i, t in b.calls():
+                cal = t.get("f") or t["tf"]
+                if cal == b.fn or cal not in cg.bodies or not any(isinstance(a, list) and a[0] in taint for a in t["args"]):
+                    continue
+                guard = bool(sums.summary(cal))
+                if not guard and (not _is_private_helper(cg, cal) or SKIP_FN.search(cal)):
+                    continue
+                for k, a in enumerate(t["args"]):
+                    if isinstance(a, list) and a[0] in taint and (k + 1) not in seeds[cal] and re.search(r"^(u|i)(8|16|32|64|128|size)$", cg.bodies[cal].locals[k + 1]):
+                        if not guard:
+                            if dis is None:
+                                dis = discharger(b, taint)[0]
+                            if dis(i, [a[0]]):
+                                continue          # compared in the caller before it is handed over
+                        else:
+                            guard_seeds[cal].add(k + 1)
+                        seeds[cal].add(k + 1)
+                        nxt.add(cal)
+        work = [cg.bodies[f] for f in sorted(nxt)]
+        if not work:
+            break
+    local = local + [cg.bodies[f] for f in sorted(seeds) if seeds[f] and cg.bodies[f] not in local]
+    param_only = defaultdict(list)     # group -> [is this site file-derived ONLY through a parameter of a (non-guard) private helper]
+    for b in local:
+        if b.fn in seen_fn:
+            continue
+        seen_fn.add(b.fn)
+        if SKIP_FN.search(b.fn):
+            continue
+        taint = tainted_locals(b, seeds.get(b.fn, ()))
+        if not taint:
+            continue
+        found = sites_of(b, taint)
+        before = None
+        if seeds.get(b.fn, set()) - guard_seeds.get(b.fn, set()):
+            t0 = tainted_locals(b, guard_seeds.get(b.fn, ()))
+            before = {(k, w, l) for k, w, l, _ in sites_of(b, t0)} if t0 else set()
+        for kind, what, line, ok in found:
+            n_sites += 1
+            per_fn[(b.fn, kind, what, ok)].append(line)
+            param_only[(b.fn, kind, what, ok)].append(before is not None and (kind, what, line) not in before)
     rep.floor("C07-R3", "file-derived allocation/index/arithmetic sites found under the loader", n_sites, 20)
-    per_fn = reattribute_moved_sites(rep, cg, bodies, per_fn)
+    listed = _listed_keys(rep)
+    per_fn, via = reattribute_moved_sites(rep, cg, per_fn, sorted(seen_fn))
+    ncalls = _call_counts(cg, sorted(seen_fn))
     for (fn, kind, what, ok), lines in sorted(per_fn.items()):
-        rule = "C07-R4" if kind == "alloc" else "C07-R3"
+        rule = _rule_of(kind)
         b = cg.bodies[fn]
         key = "%s:%s:%s:x%d" % (fn, kind, what, len(lines))
         if ok:
             rep.ok(rule, key, sample={"fn": fn, "site": kind + " " + what, "lines": lines, "discharged_by": "dominating comparison on the file-derived value"})
-        else:
-            msgs = {"alloc": "allocation whose size comes from the file with no dominating bound: a crafted file (valid CRC) makes the loader allocate without bound / panic with capacity overflow",
-                    "index": "index computed from file bytes with no dominating bounds comparison: a crafted file (valid CRC) panics the loader",
-                    "assert": "overflow/zero-checked arithmetic on file bytes with no dominating comparison: a crafted file (valid CRC) panics the loader"}
-            rep.bad(rule, key, "%s: %s `%s` at line(s) %s — %s" % (fn, kind, what, lines, msgs[kind]), "%s:%d" % (b.file, lines[0]))
+            continue
+        po = param_only.get((fn, kind, what, ok))
+        if po and all(po) and "%s|%s" % (rule, key) not in listed:
+            # a site that is file-derived only because a decoder hands a file-derived count to this private helper.  Such sites were not
+            # seen at all before parameters were followed; they are raised when they change a site class somebody has reviewed (a caller
+            # has a listed finding of this kind and callee: the multiplicity differs) and recorded as candidates otherwise.
+            ec = entry_callers(cg, ncalls, listed, fn, kind, what)
+            if not any(_has_listed_kind(listed, g, kind, what) for g in ec) and not _has_listed_kind(listed, fn, kind, what):
+                rep.note("candidate-site-through-helper-parameter", {"rule": rule, "site": "%s %s" % (kind, what), "in": fn, "lines": lines, "reached_from": sorted(ec),
+                                                                     "why": "the size/index is a parameter of a private helper that receives a file-derived argument with no comparison before the call; no finding of this site class is listed for the callers"})
+                continue
+        msgs = {"alloc": "allocation whose size comes from the file with no dominating bound: a crafted file (valid CRC) makes the loader allocate without bound / panic with capacity overflow",
+                "index": "index computed from file bytes with no dominating bounds comparison: a crafted file (valid CRC) panics the loader",
+                "assert": "overflow/zero-checked arithmetic on file bytes with no dominating comparison: a crafted file (valid CRC) panics the loader"}
+        through = " (in private helper(s) %s it calls)" % ", ".join(h.split("::")[-1] for h in via[(fn, kind, what)]) if (fn, kind, what) in via else ""
+        rep.bad(rule, key, "%s: %s `%s` at line(s) %s%s — %s" % (fn, kind, what, lines, through, msgs[kind]), "%s:%d" % (b.file, lines[0]))
     rep.analysed = {"crate": crate, "bodies": len(bodies), "loader_reachable_bodies": len(seen_fn), "entries": [b.fn for b, _ in entries],
                     "parser": sorted(pnames), "verifier": sorted(vnames), "tainted_sites": n_sites}
 
@@ -395,10 +526,29 @@ def run(F, rep, tier):
     encs = [b for b in bodies if re.search(r"CompileCtx::compile$|ParsedProgram::to_bytes$", b.fn)]
     if rep.check(len(encs) == 2, "C07-R2", "anchor:encoders", "expected the two encoders CompileCtx::compile and ParsedProgram::to_bytes, found %s" % [b.fn for b in encs]):
         core = F.syn(crate)
+        from lib.facts import find, render, render_pat, is_node
+        from rules.c07_fields import codec_helpers, expand_helpers
+        # a writer may hand part of its record to a private helper (`write_operands(w, args)?`): layouts are read off the expanded body
+        helpers = codec_helpers([it for it in core if (it.get("mod") or "").startswith("program")])
+
+        def expanded_body(it):
+            return expand_helpers(it, helpers)["body"]
         wt = {}
+        wt_arms = {}      # type -> {variant: widths} for writers that are one match over the variants of self (the order of the arms is free)
         for it in core:
-            if it["k"] == "method" and it["name"] == "write_to" and not it["trait"]:
-                wt[X.type_head(it["self"])] = [w for w, _ in C.io_seq(it["body"], "write")]
+            if it["k"] == "method" and it["name"] == "write_to" and not it["trait"] and it.get("body") is not None:
+                body = expanded_body(it)
+                th = X.type_head(it["self"])
+                wt[th] = [w for w, _ in C.io_seq(body, "write")]
+                for m in find(body, "match"):
+                    if is_node(m[1]) and render(m[1]) in ("self", "*self") and len(m[2]) >= 3:
+                        arms = {}
+                        for a in m[2]:
+                            mm = re.search(r"(\w+)::(\w+)", render_pat(a[0]))
+                            if mm:
+                                arms[mm.group(2)] = [w for w, _ in C.io_seq(a[2], "write")]
+                        wt_arms[th] = arms
+                        break
         seqs = []
         for b in encs:
             seq = sorted((t["l"], (t.get("f") or t["tf"])) for i, t in b.calls()
@@ -414,6 +564,11 @@ def run(F, rep, tier):
             lx, ly = wt.get(tx) or [], wt.get(ty) or []
             # the re-encoder may carry extra arms (e.g. DecodedInstr::Unknown) after the shared ones: per-opcode agreement is C06-R4
             same = x.endswith("::write_to") and y.endswith("::write_to") and lx and ly and (lx == ly or ly[:len(lx)] == lx or lx[:len(ly)] == ly)
+            if not same and x.endswith("::write_to") and y.endswith("::write_to") and wt_arms.get(tx) and wt_arms.get(ty):
+                # the same variants in another arm order: compared variant by variant (at least all variants of the smaller writer)
+                ax, ay = wt_arms[tx], wt_arms[ty]
+                common = set(ax) & set(ay)
+                same = len(common) == min(len(ax), len(ay)) and all(ax[v] == ay[v] for v in common)
             rep.check(bool(same), "C07-R2", "section-write-%d" % i, "section write %d differs between the encoders: %s (%s) vs %s (%s)" % (i, x, wt.get(tx), y, wt.get(ty)),
                       sample={"position": i, "compile": x, "to_bytes": y, "layout": wt.get(tx)})
         # header: write_to widths == read_from widths == HEADER_SIZE
@@ -421,10 +576,10 @@ def run(F, rep, tier):
         hsize = None
         for it in core:
             if it["k"] == "method" and X.type_head(it["self"]) == "ByteCodeHeader" and not it["trait"]:
-                if it["name"] == "write_to":
-                    hw = C.io_seq(it["body"], "write")
-                if it["name"] == "read_from":
-                    hr = C.io_seq(it["body"], "read")
+                if it["name"] == "write_to" and it.get("body") is not None:
+                    hw = C.io_seq(expanded_body(it), "write")
+                if it["name"] == "read_from" and it.get("body") is not None:
+                    hr = C.io_seq(expanded_body(it), "read")
             if it["k"] == "iconst" and it["name"] == "HEADER_SIZE" and X.type_head(it["self"]) == "ByteCodeHeader":
                 try:
                     hsize = eval(re.sub(r"[^0-9+*() ]", "", __import__("lib.facts", fromlist=["render"]).render(it["val"])))
@@ -815,6 +970,142 @@ def run_r5(F, rep, crate, cg, consts=None):
     rep.floor("C07-R5", "truncation guards compared with instruction sizes", n, 5)
 
 
+class _Return(Exception):
+    def __init__(self, value):
+        self.value = value
+
+
+def eval_small_fn(body, env):
+    """value of a small pure function body (a statement list) under `env`: `let`, early `return`, `if` / `else` (statement or expression),
+    `match` over integers / booleans (literal, or-, range-, binding and wildcard patterns, guards), nested blocks, short-circuit `&&` / `||`;
+    leaf expressions by lib.minieval.  A division / remainder by zero evaluates to the string "panic".  Raises NoEval for anything else."""
+    from lib.minieval import ev, NoEval
+    from lib.facts import is_node
+
+    def lit(e):
+        if is_node(e) and e[0] == "int":
+            return int(re.sub(r"[^0-9].*$", "", str(e[1])) or 0)
+        if is_node(e) and e[0] == "bool":
+            return bool(e[1])
+        if is_node(e) and e[0] == "un" and e[1] == "-":
+            return -lit(e[2])
+        if is_node(e) and e[0] == "path" and e[1] in env:
+            return env[e[1]]
+        raise NoEval("pattern literal")
+
+    def match_pat(p, v, env):
+        """bindings when pattern p matches v, else None"""
+        if not is_node(p):
+            raise NoEval("pattern")
+        t = p[0]
+        if t == "pwild":
+            return {}
+        if t == "ptype":
+            return match_pat(p[1], v, env)
+        if t == "pident":
+            if p[4]:
+                sub = match_pat(p[4], v, env)
+                return None if sub is None else dict(sub, **{p[1]: v})
+            if p[1] in env and p[1][:1].isupper():
+                return {} if env[p[1]] == v else None
+            return {p[1]: v}
+        if t == "plit":
+            return {} if lit(p[1]) == v else None
+        if t == "ppath":
+            if p[1] in env:
+                return {} if env[p[1]] == v else None
+            raise NoEval("pattern path")
+        if t == "por":
+            for q in p[1]:
+                r = match_pat(q, v, env)
+                if r is not None:
+                    return r
+            return None
+        if t == "prange":
+            m = re.match(r"^\s*(-?\s*\d+)?[a-z0-9_]*\s*(\.\.=|\.\.\.|\.\.)\s*(-?\s*\d+)?[a-z0-9_]*\s*$", str(p[1]))
+            if not m:
+                raise NoEval("range pattern")
+            lo = int(m.group(1).replace(" ", "")) if m.group(1) else None
+            hi = int(m.group(3).replace(" ", "")) if m.group(3) else None
+            if lo is not None and v < lo:
+                return None
+            if hi is not None and (v > hi or (v == hi and m.group(2) == "..")):
+                return None
+            return {}
+        raise NoEval("pattern " + t)
+
+    def E(e, env, d=0):
+        if d > 40 or not is_node(e):
+            raise NoEval(str(e)[:30])
+        t = e[0]
+        if t == "if":
+            if is_node(e[1]) and e[1][0] == "letc":
+                raise NoEval("if let")
+            if E(e[1], env, d + 1):
+                return block(e[2], dict(env), d + 1)
+            return E(e[3], env, d + 1) if e[3] else None
+        if t == "match":
+            v = E(e[1], env, d + 1)
+            for arm in e[2]:
+                bnd = match_pat(arm[0], v, env)
+                if bnd is None:
+                    continue
+                env2 = dict(env, **bnd)
+                if arm[1] is not None and not E(arm[1], env2, d + 1):
+                    continue
+                return E(arm[2], env2, d + 1)
+            raise NoEval("no arm")
+        if t in ("block", "unsafe"):
+            return block(e[1], dict(env), d + 1)
+        if t == "ret":
+            raise _Return(E(e[1], env, d + 1) if e[1] is not None else None)
+        if t == "paren":
+            return E(e[1], env, d + 1)
+        if t == "cast":
+            v = E(e[1], env, d + 1)
+            return int(v) if isinstance(v, bool) else v
+        if t == "un" and e[1] == "!":
+            return not E(e[2], env, d + 1)
+        if t == "bin" and e[1] in ("&&", "||"):
+            l = bool(E(e[2], env, d + 1))
+            if e[1] == "&&":
+                return l and bool(E(e[3], env, d + 1))
+            return l or bool(E(e[3], env, d + 1))
+        if t == "bin" and e[1] in ("%", "/"):
+            l, r = E(e[2], env, d + 1), E(e[3], env, d + 1)
+            if r == 0:
+                raise _Return("panic")
+            return l % r if e[1] == "%" else l // r
+        if t == "bin" and e[1] in ("==", "!=", "<", ">", "<=", ">=", "+", "-", "*", "&", "|"):
+            l, r = E(e[2], env, d + 1), E(e[3], env, d + 1)
+            return ev(["bin", e[1], ["path", "$l"], ["path", "$r"]], {"$l": l, "$r": r})
+        return ev(e, env)
+
+    def block(stmts, env, d=0):
+        last = None
+        for st in stmts:
+            if st[0] == "let":
+                if st[2] is None:
+                    raise NoEval("let")
+                bnd = match_pat(st[1], E(st[2], env, d + 1), env)
+                if bnd is None:
+                    raise NoEval("let pattern")
+                env.update(bnd)
+                last = None
+            elif st[0] == "expr":
+                v = E(st[1], env, d + 1)
+                last = v if not st[2] else None
+            elif st[0] == "item":
+                continue
+            else:
+                raise NoEval("stmt")
+        return last
+    try:
+        return block(body, dict(env))
+    except _Return as r:
+        return r.value
+
+
 def run_r6(F, rep, crate, tier="quick"):
     """C07-R6: the loader's alignment test accepts every alignment the compiler hands out"""
     from lib.facts import find, walk, is_node, path_of, render, render_pat, last_seg
@@ -857,19 +1148,7 @@ def run_r6(F, rep, crate, tier="quick"):
                 env = dict(consts)
                 env[params[0]] = off
                 env[params[1]] = a
-                result = None
-                for st in it["body"]:
-                    if st[0] == "let" and st[2] is not None and st[1][0] == "pident":
-                        env[st[1][1]] = ev(st[2], env)
-                    elif st[0] == "expr" and is_node(st[1]) and st[1][0] == "if":
-                        if bool(ev(st[1][1], env)):
-                            rets = [x for s2 in st[1][2] for x in walk(s2) if x[0] == "ret"]
-                            tails = [s2[1] for s2 in st[1][2] if s2[0] == "expr" and not s2[2]]
-                            val = rets[0][1] if rets else (tails[0] if tails else None)
-                            result = ev(val, env) if val is not None else None
-                            break
-                    elif st[0] == "expr" and not st[2]:
-                        result = ev(st[1], env)
+                result = eval_small_fn(it["body"], env)
                 n += 1
                 if result is not True:
                     wrong.append("align %d at offset %d -> %s" % (a, off, result))
